@@ -3122,8 +3122,22 @@ func CreateCertificateRequest(rand io.Reader, template *CertificateRequest, priv
 
 	extensions = append(extensions, template.ExtraExtensions...)
 
-	var attributes []pkix.AttributeTypeAndValueSET
-	attributes = append(attributes, template.Attributes...)
+	// Make a copy of template.Attributes, one level deeper than the
+	// attribute list itself: the extensions are appended to Value[0] of an
+	// existing extensionRequest attribute below, and that must not show in
+	// the caller's template (a later call would take them for extensions
+	// specified via Attributes).
+	attributes := make([]pkix.AttributeTypeAndValueSET, 0, len(template.Attributes))
+	for _, attr := range template.Attributes {
+		values := make([][]pkix.AttributeTypeAndValue, len(attr.Value))
+		for i, v := range attr.Value {
+			values[i] = append([]pkix.AttributeTypeAndValue(nil), v...)
+		}
+		attributes = append(attributes, pkix.AttributeTypeAndValueSET{
+			Type:  attr.Type,
+			Value: values,
+		})
+	}
 
 	// extensionRequest holds the extensions that go into an attribute of their
 	// own. It is serialised from pkix.Extension values further down: an
